@@ -467,6 +467,8 @@ impl Local {
             self.collecting.set(false);
         }
 
+        // The destructors executed by the collection may have created guards that are still alive.
+        let guard_count = self.guard_count.get();
         self.guard_count.set(guard_count - 1);
         if guard_count == 1 {
             self.epoch.store(Epoch::starting(), Ordering::Release);
